@@ -223,7 +223,7 @@ async fn write_case(case: &Case, dir: &Path) -> Result<BTreeMap<u32, PathBuf>, S
     Ok(files)
 }
 
-fn capture_stdout<T>(path: &Path, f: impl FnOnce() -> T) -> (T, Vec<u8>) {
+pub fn capture_stdout<T>(path: &Path, f: impl FnOnce() -> T) -> (T, Vec<u8>) {
     let _ = std::io::stdout().flush();
     let file = std::fs::File::create(path).unwrap();
     let r;
